@@ -281,6 +281,20 @@ def run_gen(ctx, spec):
         for blank in BLANKS:
             check_float(ctx, ff, ' ' * w, blank, None, 'blank', 'blank')
             check_int(ctx, ff, ' ' * w, blank, None, 'blank')
+    # fields a line ends in: a short line leaves the line terminator (or nothing but it) in the last field it reaches, so a
+    # field of white space other than blanks is a blank field too, and a number followed by the terminator is that number
+    for ws in ['\n', '  \n', '\n    ', '\r\n', '  \r\n', '\t', ' \t ', '    \n     ', '\x0c', '\x0b']:
+        for blank in BLANKS:
+            check_float(ctx, ff, ws, blank, None, 'blank', 'line-end')
+            check_int(ctx, ff, ws, blank, None, 'line-end')
+            ctx.count('line_end_fields_checked', 2)
+    for body, iv, fv in [('12', 12, 12.0), ('-7', -7, -7.0), ('1.5', None, 1.5), ('2.5E3', None, 2500.0), ('1.5-100', None, 1.5e-100)]:
+        for tail in ['\n', '\r\n', ' \n', '\n  ']:
+            for lead in ['', '  ']:
+                check_float(ctx, ff, lead + body + tail, 0.0, fv, 'line-end', 'line-end')
+                if iv is not None:
+                    check_int(ctx, ff, lead + body + tail, 0, iv, 'line-end')
+                ctx.count('line_end_fields_checked')
     # (b) integers
     for i in range(spec['ints']):
         r = rng.random()
@@ -493,6 +507,35 @@ def run_insitu(ctx, spec):
                 got = inc[name].permeability
                 if got is None or [float(x) for x in got] != [float(x) for x in exp]:
                     ctx.violation('wrong-value:zero-read-as-absent', 'block %r permeability fields %r read as %r, Fortran reads %r' % (name, z, got, exp), case)
+                    break
+        report(ctx, mon, case)
+    # a blank field is a value too (the blank value, here: absent) and keeps its place: restart files in which a primary
+    # variable in the middle of a record is not filled in
+    patterns = [[1, 0, 1], [1, 0, 0, 1], [0, 1, 1], [1, 1, 0, 1], [1, 0, 1, 0], [0, 0, 1]]
+    for pi, pat in enumerate(patterns):
+        case = {'kind': 'incon-with-blank-field-inside-record', 'pattern': pat}
+        lines = ['INCON']
+        want = {}
+        for b in range(3):
+            name = '  b%2d' % (b + 1)
+            vals = [(1.0e5 + 10 * b + k) if on else None for k, on in enumerate(pat)]
+            lines.append(name + ' ' * 10 + ' 1.00000000E-01')
+            lines.append(''.join((' %19.13E' % v) if v is not None else ' ' * 20 for v in vals).rstrip())
+            w = list(vals)
+            while w and w[-1] is None:
+                w.pop()
+            want[name] = w
+        lines += ['', '']
+        fn = os.path.join(ctx.tmp, 'c16_blank_inside.incon')
+        with open(fn, 'w') as fh:
+            fh.write('\n'.join(lines))
+        with ctx.guard(case, where='insitu-incon-blank-inside') as gb:
+            inc = R.t2incons.t2incon(fn)
+            ctx.count('records_with_blank_field_inside_read', 3)
+            for name, exp in want.items():
+                got = [None if v is None else float(v) for v in inc[name].variable]
+                if got != exp:
+                    ctx.violation('wrong-value:blank-field-inside-record', 'block %r record with fields %r read as %r, Fortran-style reading gives %r' % (name, pat, got, exp), case)
                     break
         report(ctx, mon, case)
     for f in listings:
